@@ -2058,7 +2058,7 @@ static Rational MPSgetRHS(Rational left, Rational right)
    else if(double(right) <  double(infinity))
       rhsval = right;
    else
-      throw SPxInternalCodeException("XMPSWR01 This should never happen.");
+      rhsval = right;   // free row, written as "<= infinity" (see the ROWS section)
 
    return rhsval;
 }
@@ -2132,7 +2132,7 @@ void SPxLPBase<Rational>::writeMPS(
       else if(double(rhs(i)) <  double(infinity))
          indicator = "L";
       else
-         throw SPxInternalCodeException("XMPSWR02 This should never happen.");
+         indicator = "L";   // free row: written as "<= infinity", as the LP format writer does
 
       MPSwriteRecord(p_output, indicator, MPSgetRowName(*this, i, p_rnames, name), spxout);
    }
